@@ -40,7 +40,7 @@ HostEvents2 ==
   \/ HEv("host", "senderr") /\ HostSLErr
   \/ HEv("host", "sendbig") /\ HostSLTooBig /\ hSL[2].k = H[lh].k
   \/ HEv("host", "recvd") /\ HostRLRecv /\ Wire(Head(c2h).k) = H[lh].k
-  \/ HEv("host", "recverr") /\ HostRLErr
+  \/ HEv("host", "recverr") /\ (HostRLErr \/ HostRLDeadline)
   \/ HEv("harness", "crashpoint") /\ UNCHANGED vars                         \* C16: the controller parks here
   \/ HEv("harness", "crash") /\ HostDies                                    \* C16: SIGKILL of the controller
   \/ HEv("harness", "allgone") /\ spc = "dead" /\ child \in {"none", "dead"} /\ UNCHANGED vars   \* observed: nothing left
